@@ -21,6 +21,26 @@ def to_sympy(e, opaque_funs=True):
         cache[k] = r
         return r
 
+    def cond(c):
+        k_ = c.decl().kind()
+        a = c.children()
+        if k_ == z3.Z3_OP_AND:
+            return sp.And(*[cond(y) for y in a])
+        if k_ == z3.Z3_OP_OR:
+            return sp.Or(*[cond(y) for y in a])
+        if k_ == z3.Z3_OP_NOT:
+            return sp.Not(cond(a[0]))
+        if z3.is_true(c):
+            return sp.true
+        if z3.is_false(c):
+            return sp.false
+        ops = {z3.Z3_OP_LT: sp.Lt, z3.Z3_OP_LE: sp.Le, z3.Z3_OP_GT: sp.Gt, z3.Z3_OP_GE: sp.Ge, z3.Z3_OP_EQ: sp.Eq}
+        if k_ in ops:
+            return ops[k_](conv(a[0]), conv(a[1]))
+        if k_ == z3.Z3_OP_DISTINCT:
+            return sp.Ne(conv(a[0]), conv(a[1]))
+        raise ValueError("unsupported condition %s" % c.decl())
+
     def _conv(x):
         if z3.is_int_value(x):
             return sp.Integer(x.as_long())
@@ -63,7 +83,7 @@ def to_sympy(e, opaque_funs=True):
                 return _FUN[nm](*[conv(c) for c in ch])
             return sp.Function(nm)(*[conv(c) for c in ch])
         if kk == z3.Z3_OP_ITE:
-            raise ValueError("ite in polynomial term")
+            return sp.Piecewise((conv(ch[1]), cond(ch[0])), (conv(ch[2]), True))
         raise ValueError("unsupported op in %s" % x.decl())
     return conv(e)
 
@@ -109,6 +129,14 @@ def check_identity_srepr(eqs):
         a, b = item
         ea = _ev(a)
         eb = _ev(b)
+        if ea.has(sp.Piecewise) or eb.has(sp.Piecewise):
+            pt = refuting_point(ea - eb, tries=200)
+            if pt is not None:
+                return False, "identity fails at %s" % pt, pt
+            d0 = sp.simplify(sp.piecewise_fold(ea - eb))
+            if d0 == 0:
+                continue
+            return False, "piecewise terms: not reduced to 0 (%s)" % str(d0)[:200]
         d = sp.together(ea - eb)
         num, den = sp.fraction(d)
         num = sp.expand(num)
